@@ -56,13 +56,18 @@ var errAttempt = errors.New("attempt failed")
 
 func vRetryPolicy() *RetryPolicy {
 	p := &RetryPolicy{MaxAttempts: verifChoose("maxAttempts", verifBound("maxAttempts")) + 1}
-	switch verifChoose("waitDuration", 3) {
+	// every text below satisfies format=duration (time.ParseDuration accepts it)
+	switch verifChoose("waitDuration", 5) {
 	case 0:
 		p.WaitDuration = "" // default 500ms
 	case 1:
 		p.WaitDuration = "10ms"
 	case 2:
 		p.WaitDuration = "1us"
+	case 3:
+		p.WaitDuration = "-1s" // not positive: the default applies
+	case 4:
+		p.WaitDuration = "0s"
 	}
 	switch verifChoose("randomizationFactor", 3) {
 	case 1:
